@@ -1,5 +1,7 @@
 import CryoCat.Lemmas.C16_Filter
 import CryoCat.Lemmas.C16_Dft23
+import CryoCat.Lemmas.C16_DftN
+import CryoCat.Lemmas.C16_Int
 /-! C16 — property theorems (only theorems and non-vacuity examples).
 
 "Dose filtering multiplies every spatial-frequency component f (cycles per Angstrom, from pixel size and image
@@ -68,7 +70,7 @@ theorem dose_filter_body_documented :
        "return ts.correct_order()"] := by rfl
 
 /-- the WHOLE body of `ioutils.total_dose_load`, including the branch the correspondence run never executes (Warp `.xml`):
-arrays pass through, lists through `np.asarray`, `.csv` gives `CorrectedDose` of the rows not `Removed`, `.mdoc` is sorted
+arrays pass through, lists and tuples through `np.asarray`, `.csv` gives `CorrectedDose` of the rows not `Removed`, `.mdoc` is sorted
 by tilt angle and gives `ExposureDose + PriorRecordDose` (or `ExposureDose · (rank by DateTime + 1)` restored to tilt
 order), any other path is read one value per line -/
 theorem total_dose_load_body_documented :
@@ -76,7 +78,7 @@ theorem total_dose_load_body_documented :
       ["if isinstance(input_dose,np.ndarray)",
        ".return input_dose",
        "else",
-       ".if isinstance(input_dose,list)",
+       ".if isinstance(input_dose,(list,tuple))",
        "..return np.asarray(input_dose)",
        ".else",
        "..if isinstance(input_dose,str)",
@@ -117,6 +119,82 @@ theorem total_dose_load_body_documented :
        "..else",
        "...raise ValueError"] := by rfl
 
+/-- the helpers on the way of the stack: `TiltStack.__init__` (an ndarray is COPIED and brought to z,y,x; a path is read without
+transposition; the dtype of the data is remembered), `write_out` (writes only when `output_file` is given, with the remembered dtype),
+`correct_order` (casts BACK to the remembered dtype — for an integer stack this is the identity because the filtered images were
+already truncated on assignment, C16-K1 — and transposes to the requested order) -/
+theorem tiltstack_helpers_documented :
+    Gen.C16.tsInitSig = "__init__(self,tilt_stack,input_order='xyz',output_order='xyz')" ∧
+    Gen.C16.tsInitBody =
+      ["if notisinstance(tilt_stack,np.ndarray)",
+       ".self.data=cryomap.read(tilt_stack,transpose=False)",
+       ".if self.data.shape==2",
+       "..self.data=np.expand_dims(self.data,axis=0)",
+       "else",
+       ".self.data=tilt_stack.copy()",
+       ".if self.data.shape==2",
+       "..if input_order=='xyz'",
+       "...self.data=np.expand_dims(self.data,axis=2)",
+       "..else",
+       "...self.data=np.expand_dims(self.data,axis=0)",
+       ".if input_order=='xyz'",
+       "..self.data=self.data.transpose(2,1,0)",
+       "self.data_type=self.data.dtype",
+       "self.input_order=input_order",
+       "self.current_order='zyx'",
+       "self.output_order=output_order",
+       "self.n_tilts,self.height,self.width=self.data.shape"] ∧
+    Gen.C16.tsWriteOutSig = "write_out(self,output_file,new_data=None)" ∧
+    Gen.C16.tsWriteOutBody =
+      ["if output_file",
+       ".data_to_write=new_dataifnew_dataisnotNoneelseself.data",
+       ".cryomap.write(data_to_write,output_file,data_type=self.data_type,transpose=False)"] ∧
+    Gen.C16.tsCorrectOrderSig = "correct_order(self,new_data=None)" ∧
+    Gen.C16.tsCorrectOrderBody =
+      ["return_data=new_dataifnew_dataisnotNoneelseself.data",
+       "if return_data.dtype!=self.data_type",
+       ".return_data=return_data.astype(self.data_type)",
+       "if self.current_order!=self.output_order",
+       ".return return_data.transpose(2,1,0)",
+       "else",
+       ".return return_data"] := by
+  refine ⟨by decide, by rfl, by decide, by rfl, by decide, by rfl⟩
+
+/-- the helpers on the way of the doses: `one_value_per_line_read` reads with `dtype=data_type`, whose DEFAULT is `np.float32` (the
+recorded assumption `float32-dose-loading`: a dose written as a decimal reaches the filter as its float32 rounding), `Mdoc.__init__`
+reads the file through `_read_mdoc`, `sort_by_tilt` sorts the sections by `TiltAngle` and leaves the section ids alone unless asked,
+`get_image_feature` is the column of that name -/
+theorem dose_helpers_documented :
+    Gen.C16.lineReadSig = "one_value_per_line_read(file_path,data_type=np.float32)" ∧
+    Gen.C16.lineReadBody =
+      ["if notos.path.isfile(file_path)",
+       ".raise ValueError",
+       "try",
+       ".data_df=pd.read_csv(file_path,header=None,dtype=data_type,sep='\\\\s+')",
+       ".if data_df.empty",
+       "..raise ValueError",
+       "except pd.errors.EmptyDataError",
+       ".raise ValueError",
+       "return data_df.iloc[:,0].values"] ∧
+    Gen.C16.mdocInitSig = "__init__(self,file_path=None,titles=None,project_info=None,imgs=None,section_id='ZValue')" ∧
+    Gen.C16.mdocInitBody =
+      ["if file_pathandpath.isfile(file_path)",
+       ".self.file_path=file_path",
+       ".self.titles,self.project_info,self.imgs,self.section_id=self._read_mdoc(file_path)",
+       "else",
+       ".self.titles=titles",
+       ".self.project_info=project_info",
+       ".self.imgs=imgs",
+       ".self.section_id=section_id"] ∧
+    Gen.C16.mdocSortSig = "sort_by_tilt(self,reset_z_value=False)" ∧
+    Gen.C16.mdocSortBody =
+      ["self.imgs=self.imgs.sort_values(by='TiltAngle')",
+       "if reset_z_value",
+       ".self.imgs[self.section_id]=range(self.imgs.shape[0])"] ∧
+    Gen.C16.mdocFeatureSig = "get_image_feature(self,feature)" ∧
+    Gen.C16.mdocFeatureBody = ["return self.imgs[feature]"] := by
+  refine ⟨by decide, by rfl, by decide, by rfl, by decide, by rfl, by decide, by rfl⟩
+
 /-- the constants the model computes with, at the reals, are the statement's -/
 theorem constants_real : gg realOps = { a := 0.245, b := -1.665, c := 2.81 } := gg_real
 
@@ -138,7 +216,7 @@ theorem frequency_array_documented :
     Gen.C16.freqStore = "frequency_array[y,x]=d" ∧ Gen.C16.freqInit = "np.zeros((ts.height,ts.width))" ∧
     Gen.C16.loopRangeX = "range(ts.width)" ∧ Gen.C16.loopRangeY = "range(ts.height)" := by decide
 
-/-- image `z` is filtered with `total_dose[z]`, doses given as arrays/lists pass through `total_dose_load` unchanged —
+/-- image `z` is filtered with `total_dose[z]`, doses given as arrays/lists/tuples pass through `total_dose_load` unchanged —
 the pairing `doseFilter` models -/
 theorem per_tilt_pairing_documented :
     Gen.C16.loopRangeZ = "range(ts.n_tilts)" ∧ Gen.C16.imageExpr = "ts.data[z,:,:]" ∧
@@ -146,7 +224,7 @@ theorem per_tilt_pairing_documented :
     Gen.C16.doseLoad = "ioutils.total_dose_load(total_dose)" ∧ Gen.C16.pixelCast = "float(pixel_size)" ∧
     Gen.C16.returnExpr = "ts.correct_order()" ∧
     Gen.C16.doseLoadPassthrough
-      = "isinstance(input_dose,np.ndarray)->input_dose;isinstance(input_dose,list)->np.asarray(input_dose)" := by decide
+      = "isinstance(input_dose,np.ndarray)->input_dose;isinstance(input_dose,(list,tuple))->np.asarray(input_dose)" := by decide
 
 /-! ### the multiplier: which frequency, which factor -/
 
@@ -310,6 +388,109 @@ theorem stack_pairs_doses (fft : FFT Img ℝ H W) (px : ℝ) (stack : List Img) 
 
 end image
 
+/-! ### every image size: the exact 2-D DFT over ℂ is such a service, so the image-level clauses hold without hypothesis
+
+`dftN H W` (`Lemmas/C16_DftN`) is numpy's `fft2` on real `H × W` images / `ifft2(·).real`, exactly, over ℂ:
+`fft2 x [v,u] = Σ_y Σ_i x[y,i] · exp(-2πi (y v / H + i u / W))` (`dftN_fft2_exp`), and `dftN_isDFT` proves the laws `IsDFT` for every
+`H, W ≥ 1` (inversion, Hermitian-even multipliers keep real images real, linearity).  Images are functions `Fin H → Fin W → ℝ` with
+pointwise `+` and `•`. -/
+
+section everysize
+variable {H W : Nat}
+
+/-- **every spatial-frequency component of every `H × W` image is multiplied by `G`** -/
+theorem dft_filter_spectrum (hH : 0 < H) (hW : 0 < W) (px d : ℝ) (x : ImgN H W) (v : Fin H) (u : Fin W) :
+    (dftN H W).fft2 (filt (dftN H W) px d x) v u = Cx.smul (G W H px d v u) ((dftN H W).fft2 x v u) :=
+  filter_spectrum (dftN_isDFT hH hW) px d x v u
+
+/-- **zero dose is the identity**, every size -/
+theorem dft_filter_zero_dose (hH : 0 < H) (hW : 0 < W) (px : ℝ) (x : ImgN H W) : filt (dftN H W) px 0 x = x :=
+  filter_zero_dose (dftN_isDFT hH hW) px x
+
+/-- **linear**, every size (pointwise sum and scalar multiple of images) -/
+theorem dft_filter_linear (hH : 0 < H) (hW : 0 < W) (px d c : ℝ) (x y : ImgN H W) :
+    filt (dftN H W) px d (x + y) = filt (dftN H W) px d x + filt (dftN H W) px d y ∧
+    filt (dftN H W) px d (c • x) = c • filt (dftN H W) px d x :=
+  ⟨filter_add (dftN_isDFT hH hW) px d x y, filter_smul (dftN_isDFT hH hW) px d c x⟩
+
+/-- **`d₁` then `d₂` equals once `d₁ + d₂`**, every size -/
+theorem dft_filter_compose (hH : 0 < H) (hW : 0 < W) (px d₁ d₂ : ℝ) (x : ImgN H W) :
+    filt (dftN H W) px d₂ (filt (dftN H W) px d₁ x) = filt (dftN H W) px (d₁ + d₂) x :=
+  filter_compose (dftN_isDFT hH hW) px d₁ d₂ x
+
+/-- **power never increases** (non-negative dose) and **more dose attenuates more**, at every frequency of every size -/
+theorem dft_filter_power (hH : 0 < H) (hW : 0 < W) (px : ℝ) {d₁ d₂ : ℝ} (h0 : 0 ≤ d₁) (h : d₁ ≤ d₂) (x : ImgN H W) (v : Fin H) (u : Fin W) :
+    Cx.power ((dftN H W).fft2 (filt (dftN H W) px d₁ x) v u) ≤ Cx.power ((dftN H W).fft2 x v u) ∧
+    Cx.power ((dftN H W).fft2 (filt (dftN H W) px d₂ x) v u) ≤ Cx.power ((dftN H W).fft2 (filt (dftN H W) px d₁ x) v u) :=
+  ⟨filter_power_le (dftN_isDFT hH hW) px h0 x v u, filter_more_dose (dftN_isDFT hH hW) px h x v u⟩
+
+/-- **the zero-frequency component is unchanged, hence the sum of the pixels, hence the image mean** — every size, every dose -/
+theorem dft_filter_mean (hH : 0 < H) (hW : 0 < W) (px d : ℝ) (x : ImgN H W) :
+    (dftN H W).fft2 (filt (dftN H W) px d x) ⟨0, hH⟩ ⟨0, hW⟩ = (dftN H W).fft2 x ⟨0, hH⟩ ⟨0, hW⟩ ∧
+    (∑ y : Fin H, ∑ i : Fin W, filt (dftN H W) px d x y i) / ((H : ℝ) * (W : ℝ)) = (∑ y : Fin H, ∑ i : Fin W, x y i) / ((H : ℝ) * (W : ℝ)) := by
+  have hdc := filter_dc (dftN_isDFT hH hW) px d x hH hW
+  refine ⟨hdc, ?_⟩
+  rw [← dftN_dc _ hH hW, ← dftN_dc _ hH hW, hdc]
+
+/-- the `mean` hypothesis of `filter_mean` is met by the arithmetic mean of the pixels (instance: every size) -/
+example (hH : 0 < H) (hW : 0 < W) (px d : ℝ) (x : ImgN H W) :
+    (fun y : ImgN H W => (∑ a : Fin H, ∑ b : Fin W, y a b) / ((H : ℝ) * (W : ℝ))) (filt (dftN H W) px d x)
+      = (∑ a : Fin H, ∑ b : Fin W, x a b) / ((H : ℝ) * (W : ℝ)) :=
+  filter_mean (dftN_isDFT hH hW) px d x hH hW _ (fun y => by rw [dftN_dc y hH hW])
+
+end everysize
+
+/-! ### integer-typed stacks: the code as it is (open finding C16-K1)
+
+`doseFilterInt` (Model/C16) is `dose_filter` on an integer array: convert, filter, truncate every pixel toward zero.  In exact arithmetic zero dose IS
+the identity there (an integer survives the round trip; numpy's rounding noise breaks even that); the clauses that fail are the ones about a positive dose: the result is not
+the filtered image, the zero-frequency component and the mean change. -/
+
+section intstack
+variable {Img IntImg : Type} [Add Img] [SMul ℝ Img] {H W : Nat} {fft : FFT Img ℝ H W}
+
+/-- IN EXACT ARITHMETIC zero dose is the identity on integer stacks too, whenever integers survive the conversion to float and back
+(so the clause that fails at the reals is not this one: see `int_stack_counterexample`).  In floating point not even this survives: the
+FFT returns `4.999…` for a pixel `5`, which truncation turns into `4` (seen on every random int16 stack tried) — part of C16-K1. -/
+theorem int_stack_zero_dose_identity (hD : IsDFT fft) (io : IntIO Img IntImg) (hio : ∀ x, io.trunc (io.ofInt x) = x) (px : ℝ)
+    (stack : List IntImg) :
+    doseFilterInt realOps (gg realOps) fft io px stack (List.replicate stack.length 0) = some stack := by
+  unfold doseFilterInt doseFilter
+  rw [if_neg (by simp)]
+  simp only [Option.map_some, Option.some.injEq]
+  induction stack with
+  | nil => rfl
+  | cons x xs ih =>
+    simp only [List.map_cons, List.length_cons, List.replicate_succ, List.zipWith_cons_cons, List.cons.injEq]
+    exact ⟨by rw [show doseFilterSingle realOps (gg realOps) fft px 0 (io.ofInt x) = filt fft px 0 (io.ofInt x) from rfl,
+      filter_zero_dose hD, hio], ih⟩
+
+end intstack
+
+/-- **C16-K1, witness about the model**: for every pixel size and every POSITIVE dose the 1 × 2 integer image `(1, 0)` comes back as
+`(0, 0)` — the filtered image `((1+γ)/2, (1−γ)/2)`, `0 < γ < 1`, is truncated to nothing.  So on integer stacks the output is not the
+attenuated image, and its zero-frequency component (1 before, 0 after) and mean are not preserved. -/
+theorem int_stack_counterexample (px : ℝ) {d : ℝ} (hd : 0 < d) :
+    doseFilterInt realOps (gg realOps) dft12 io12 px [(1, 0)] [d] = some [(0, 0)] ∧
+    (dft12.fft2 (io12.ofInt (1, 0)) 0 0).re = 1 ∧ (dft12.fft2 (io12.ofInt (0, 0)) 0 0).re = 0 := by
+  obtain ⟨m0, m1p, m1l⟩ := mult12 px hd
+  refine ⟨?_, by simp [dft12, io12], by simp [dft12, io12]⟩
+  unfold doseFilterInt doseFilter
+  rw [if_neg (by simp)]
+  simp only [List.map_cons, List.map_nil, List.zipWith_cons_cons, List.zipWith_nil_right, Option.map_some]
+  have e : doseFilterSingle realOps (gg realOps) dft12 px d (io12.ofInt (1, 0)) = filt dft12 px d ((1 : ℝ), (0 : ℝ)) := by
+    simp [io12]
+  rw [e, filt12, m0]
+  have h1 : io12.trunc ((1 * ((1 : ℝ) + 0) + mult realOps (gg realOps) 2 1 px d 0 1 * (1 - 0)) / 2,
+      (1 * ((1 : ℝ) + 0) - mult realOps (gg realOps) 2 1 px d 0 1 * (1 - 0)) / 2) = (0, 0) := by
+    simp only [io12]
+    rw [truncR_of_lt_one (by linarith) (by linarith), truncR_of_lt_one (by linarith) (by linarith)]
+  rw [h1]
+
+/-- ... while the same image in a floating-point stack keeps its zero-frequency component (`filter_dc` at the 1 × 2 DFT) -/
+example (px d : ℝ) : (dft12.fft2 (filt dft12 px d (1, 0)) 0 0) = dft12.fft2 ((1 : ℝ), (0 : ℝ)) 0 0 :=
+  filter_dc dft12_isDFT px d (1, 0) (by decide) (by decide)
+
 /-! ### non-vacuity: the hypotheses are satisfiable -/
 
 /-- a Fourier service obeying `IsDFT` exists (the 1 × 2 DFT), so the image-level theorems are not vacuous -/
@@ -325,6 +506,15 @@ example (x : Img23) (v : Fin 2) (u : Fin 3) :
 /-- the twiddle tables of `dft23` are the cosines / sines of the cube roots of unity -/
 example : cos3 1 = Real.cos (2 * Real.pi / 3) ∧ sin3 1 = Real.sin (2 * Real.pi / 3) := ⟨cos3_one, sin3_one⟩
 example : filt dft12 2 0 (3, 5) = (3, 5) := filter_zero_dose dft12_isDFT 2 (3, 5)
+/-- `filter_mean`'s hypothesis `hmean` instantiated: at the 1 × 2 DFT the mean `(a + b)/2` is the zero-frequency coefficient over the
+pixel count, so the mean of the filtered image is the mean of the image -/
+example (px d : ℝ) (x : ℝ × ℝ) : ((filt dft12 px d x).1 + (filt dft12 px d x).2) / 2 = (x.1 + x.2) / 2 :=
+  filter_mean dft12_isDFT px d x (by decide) (by decide) (fun y => (y.1 + y.2) / 2) (fun y => by simp [dft12])
+/-- a Fourier service for EVERY size: the exact complex DFT -/
+example (H W : Nat) (hH : 0 < H) (hW : 0 < W) : IsDFT (dftN H W) := dftN_isDFT hH hW
+/-- the integer conversions of the witness survive the round trip (hypothesis `hio` of `int_stack_zero_dose_identity`) -/
+example : doseFilterInt realOps (gg realOps) dft12 io12 1.5 [(3, -5), (0, 7)] (List.replicate 2 0) = some [(3, -5), (0, 7)] :=
+  int_stack_zero_dose_identity dft12_isDFT io12 io12_roundtrip 1.5 [(3, -5), (0, 7)]
 /-- a non-DC coefficient of a 6 × 5 image (`u = 3` is the Nyquist column, `v = 4` has signed frequency −1) -/
 example : (3 < 6 ∧ 4 < 5) ∧ ¬ (sfreq 6 3 = 0 ∧ sfreq 5 4 = 0) ∧ sfreq 6 3 = -3 ∧ sfreq 5 4 = -1 := by decide
 example : ∃ out, filtStack dft12 2 [(1, 2), (3, 4)] [30, 10, 20] = some out ∧ out.length = 2 :=
